@@ -13,6 +13,7 @@ pub mod c16;
 pub mod c17;
 pub mod c19;
 pub mod c20;
+pub mod rawchan;
 pub mod contract;
 pub mod cgen;
 pub mod chprops;
